@@ -34,6 +34,9 @@ type Property struct {
 	Extra func(r *Run)
 	// Assumptions listed in the evidence file.
 	Assumptions []string
+	// ShrinkKeep names the heads of forms that shrinking must treat as atomic
+	// (facts recorded from the implementation at generation time, literals …).
+	ShrinkKeep []string
 }
 
 var registry = map[string]*Property{}
@@ -360,6 +363,12 @@ func RunProperty(p *Property, tier string, seed int64, driver, corpusDir, outFil
 	}
 	if p.Extra != nil {
 		p.Extra(r)
+	}
+	// known findings of the unchanged tree are reported as they are; anything
+	// else is shrunk for the replay file (the check script decides which is which,
+	// shrinking is cheap enough to do for the first violation of every class)
+	if os.Getenv("VERIF_NO_SHRINK") == "" {
+		r.ShrinkViolations()
 	}
 	res.WallS = time.Since(start).Seconds()
 	data, _ := json.MarshalIndent(res, "", " ")
